@@ -277,7 +277,7 @@ func c16ErrMain(run *verifkit.Run, res *verifkit.Result) {
 			cfgs = append(cfgs, c16Cfg{WL: wl, Kind: kind})
 		}
 	}
-	cfgs = append(cfgs, c16Cfg{WL: "import", Kind: c16Regular})
+	cfgs = append(cfgs, c16Cfg{WL: "import", Kind: c16Regular}, c16Cfg{WL: "import", Kind: c16OnDisk})
 	for _, kind := range []string{c16Regular, c16OnDisk} {
 		// one representative schedule of the race: chunks early, record late
 		cfgs = append(cfgs, c16Cfg{WL: "race", Kind: kind, X: 20, K1: 3, K2: 12})
